@@ -73,6 +73,7 @@ def decomposed(draw, kind, tier='quick', max_subs=3, profile=None):
         'via_file': draw(st.sampled_from([False, False, False, True])),
         'late_inline': draw(st.integers(0, 2)) if draw(st.integers(0, 3)) == 0 else None,
         'extra': None,
+        'name_twin': draw(st.integers(0, 5)) == 0,
     }
     if draw(st.integers(0, 5)) == 0:
         # a named requirement whose text also stands written out inside a requirement defined before it
@@ -168,7 +169,10 @@ def decorate(case, i, t):
 
 
 def sub_names(case):
-    return ['sub%d' % i for i in range(len(case['subs']))]
+    names = ['sub%d' % i for i in range(len(case['subs']))]
+    if case.get('name_twin') and names:
+        names[0] = 'ok'           # next to a requirement 'is_ok' with the same text (see modular_texts)
+    return names
 
 
 def modular_texts(case, printer):
@@ -204,6 +208,12 @@ def modular_texts(case, printer):
         bodies.append((names[i], printer(with_consts(body))))
     if late is not None:
         bodies.append(bodies.pop(late))
+    if case.get('name_twin') and bodies:
+        # a further requirement with the same text under a name that ends with the name of the first one, defined before it:
+        # "is_ok = phi;" then "ok = phi;" (the text of the second is contained in the text of the first)
+        i = [n for n, _t in bodies].index('ok') if 'ok' in [n for n, _t in bodies] else None
+        if i is not None:
+            bodies.insert(i, ('is_ok', bodies[i][1]))
     extra = case.get('extra')
     if extra is not None:
         # a further requirement that nothing refers to (it has its own horizon)
